@@ -91,7 +91,8 @@ PLAN = {
                 unclaimed=['numerical accuracy of libm-backed functions, gamma, Lambert W (A-libm: which primitive is applied to which operands is proved, not what it computes)']),
     'C11': dict(verus=ALL_V, kani=['f64-ast', 'number-ast'], level='proof', assumptions=AST_ASSUME + F64_ASSUME + PARSER_ASSUME,
                 unclaimed=['med of two or more arguments in eval_f64 / eval_number / eval_decimal is specified up to the order of arguments that compare equal (0.0 / -0.0, Integer(2) / Float(2.0), 1.0 / 1.00): the result is the median of SOME sorted permutation of the argument values',
-                           'independence of the argument order: the code is proved to compute the left fold of the binary min / max / gcd / lcm; that these folds are order-independent is mathematics not machine-checked here']),
+                           'independence of the argument order is machine-checked for eval_i64 min / max (element and bound of the sequence), avg (the sum depends only on the multiset; both orders must stay inside i64 on the way) and med (a sorted sequence is determined by its multiset), '
+                           'and gcd of two values is the greatest common divisor by its defining property; not machine-checked: order-independence of the n-ary gcd / lcm folds, and of the floating-point / Decimal sums (rounding makes a left-to-right sum depend on the order in the last bit)']),
     'C13': dict(verus=PARSERS + GLUES + TOKS + ['f64-ast', 'number-ast'], kani=['f64-ast', 'number-ast'], level='proof', assumptions=PARSER_ASSUME + GLUE_ASSUME + TOK_ASSUME,
                 unclaimed=[]),
     'C14': dict(verus=ALL_V, kani=['f64-ast', 'number-ast'], level='proof', assumptions=AST_ASSUME + F64_ASSUME + PARSER_ASSUME,
